@@ -251,7 +251,14 @@ def _worker(args: tuple[str, bool, int, int]) -> list[dict[str, Any]]:
                     res.append(lst)
                 return res
             f1, f2 = flat(ops1), flat(ops2)
-            if f1 != f2:
+            names1 = [nm if isinstance(nm, str) else None for nm in c.attrs["named_coroutines"]]
+            names2 = [nm if isinstance(nm, str) else None for nm in c2.attrs["named_coroutines"]]
+            kinds1 = [k[0] if k else None for k in infos1]
+            if infos1 != infos2:
+                rec["fallback_diff"] = f"routine table {infos1} came back as {infos2}"
+            elif [n for n, k in zip(names1, kinds1) if k == "COROUTINE"] != [n for n, k in zip(names2, kinds1) if k == "COROUTINE"]:
+                rec["fallback_diff"] = f"coroutine names {names1} came back as {names2}"
+            elif f1 != f2:
                 d = next(((a, b) for ra, rb in zip(f1, f2) for a, b in zip(ra, rb) if a != b), None)
                 rec["fallback_diff"] = f"{d[0]} came back as {d[1]}" if d else f"op counts differ: {[len(r) for r in f1]} vs {[len(r) for r in f2]}"
         # recompilation places each op on the line the decompiler recorded
@@ -264,6 +271,27 @@ def _worker(args: tuple[str, bool, int, int]) -> list[dict[str, Any]]:
                     if re.match(r"^(op\d+|hm_\w+)$", nm) and op.attrs["offset"] in sm2:
                         line2.setdefault(nm, []).append(sm2[op.attrs["offset"]].attrs["line"])
             mism = [f"{nm}: decompiler says line {entry_of[nm][0]}, recompilation says {line2[nm]}" for nm in entry_of if nm in line2 and entry_of[nm][0] not in line2[nm]]
+            # every other op that is identified by its name and parameter values on both sides (case texts, assignments, conditions, ...)
+            def ident(op: Any) -> str:
+                nm2 = op.attrs["op_code"].attrs["name"]
+                ps2 = list(op.attrs["params"])
+                if nm2 in jumpish and ps2 and isinstance(ps2[-1], int):
+                    ps2 = ps2[:-1]
+                return nm2 + "(" + ",".join(p.cls.name + repr(sorted((k, v if not isinstance(v, dict) else sorted(v.items())) for k, v in p.attrs.items() if k != "indent"))
+                                            if isinstance(p, AObj) else repr(p) for p in ps2) + ")"
+            id1: dict[str, list[int]] = {}
+            id2: dict[str, list[int]] = {}
+            for r in ops1:
+                for op in r:
+                    id1.setdefault(ident(op), []).append(op.attrs["offset"])
+            for r in ops2:
+                for op in r:
+                    id2.setdefault(ident(op), []).append(op.attrs["offset"])
+            for k2, offs in id1.items():
+                if len(offs) == 1 and len(id2.get(k2, [])) == 1 and offs[0] in maps and id2[k2][0] in sm2 and not re.match(r"^(op\d+|hm_\w+)\(", k2) and not k2.startswith("Jump("):
+                    l1, l2 = maps[offs[0]].attrs["line"], sm2[id2[k2][0]].attrs["line"]
+                    if l1 != l2:
+                        mism.append(f"{k2[:60]}: decompiler says line {l1}, recompilation says line {l2}")
             if mism and not fallback:
                 rec.setdefault("sm_problems", []).extend(mism[:2])
         except (KeyError, AttributeError, TypeError):
